@@ -37,6 +37,8 @@ def c14(tier, seed):
               hworld("h_disp_multi", 1, threading=1, only_tags=["route"], fraction=0.3, fill="0xFF"),
               hworld("h_queue_multi", 2, threading=1, only_tags=["queue", "queue-nested"]),
               hworld("h_queue_spin_route", 2, threading=2, only_tags=["route"], fraction=0.2, fill="0x00"),
+              hworld("h_queue_tracked", 2, threading=3, only_tags=["queue", "queue-nested"], fraction=0.3, fill="0xAB"),      # tracked mutexes / atomics of the queue level
+              hworld("h_disp_tracked", 1, threading=3, only_tags=["route"], fraction=0.2, fill="0x00"),
               hworld("h_queue_clang17", 2, threading=1, only_tags=["queue"], fraction=0.25, compiler="clang++", std="c++17", opt="-O2")]
     # include-event mode with a movable key taken by value (evaluation order, implicit move): shapes 1,2 of the same tables
     incl = {"module": "HetGen", "tag": "incl", "invariants": HINV,
@@ -114,7 +116,8 @@ def c09h(tier, seed):
     worlds = [hworld("hx_list_single", 0, threading=0, only_tags=["throw-direct"]),
               hworld("hx_disp_multi", 1, threading=1, only_tags=["throw-direct"], fraction=0.5, fill="0xFF"),
               hworld("hx_queue_multi", 2, threading=1, only_tags=["throw-queued"]),
-              hworld("hx_queue_spin", 2, threading=2, only_tags=["throw-queued"], fraction=0.3, fill="0x00")]
+              hworld("hx_queue_spin", 2, threading=2, only_tags=["throw-queued"], fraction=0.3, fill="0x00"),
+              hworld("hx_queue_tracked", 2, threading=3, only_tags=["throw-queued"], fraction=0.5, fill="0xAB")]     # a lock still held when the exception leaves = destroyed locked / relock
     return {"interp": "harness/het_interp.cpp", "trace_module": "TraceHet", "models": [direct, queued], "worlds": worlds,
             "nontrivial_key": "scripts", "level": "fault_enumeration",
             "rule": "every transition of the bounded HetGen reference model with listeners that throw (next to plain, self-removing and enqueuing ones) over "
